@@ -301,7 +301,7 @@ class Check:
         with open(os.path.join(EVID, f'{self.pid}.json'), 'w') as f:
             json.dump(ev, f, indent=1)
         if os.environ.get('VERIF_DEBUG'):
-            for o in sorted(obls, key=lambda o: -o.seconds)[:12]:
+            for o in sorted(obls, key=lambda o: -o.seconds)[:40]:
                 print(f'  slow: {o.seconds:7.2f}s {str(o.verdict):8s} {o.name}')
         for l in lines:
             print(l)
@@ -309,7 +309,7 @@ class Check:
             print('INCONCLUSIVE:', m)
         print(f'[{self.pid}] tier={self.tier} obligations={len(claims)} discharged={discharged} refuted={len(refuted)} '
               f'inconclusive={len(inconcl)} ground={ground} paths={self.paths} known={len(self.known_hits)} '
-              f'violations={len(self.violations)} solver_s={solver_s + self.explore_s:.1f} wall_s={wall:.1f} -> exit {status}')
+              f'violations={len(self.violations)} solver_s={solver_s:.1f} explore_solver_s={self.explore_s:.1f} wall_s={wall:.1f} -> exit {status}')
         return status
 
 
